@@ -35,16 +35,26 @@
 (* as "mi.k"; the string a statement assigns/exports is its own id, so a   *)
 (* logged value tells which statement produced it.                         *)
 (*                                                                         *)
+(* Generation and running can be separated (Mode): "gen" exports every     *)
+(* complete graph that links together with its Features (coverage labels   *)
+(* defined below: why the module holding a statement is demand-loaded x    *)
+(* statement kind x target class), "run" takes graphs from a file and runs *)
+(* the loader on them.  The replay selects graphs label by label first.    *)
+(*                                                                         *)
 (* Not generated (excluded by the property or not deterministic natively): *)
 (* reads of uninitialised bindings (TDZ), more than one import() per run   *)
 (* (completion order of independent jobs), require() of an ES module that  *)
 (* is in a cycle with / already linked by an import (Node throws           *)
 (* ERR_REQUIRE_CYCLE_MODULE, a host restriction), a CommonJS module that   *)
 (* threw being loaded again (the require cache forgets it, the ESM module  *)
-(* map does not), CommonJS modules whose                                   *)
-(* statically detected names differ from the keys of module.exports when   *)
-(* a namespace of them is observed, CommonJS exports changed after the     *)
-(* snapshot.  Such runs end with excl # "" and are not exported.           *)
+(* map does not), CommonJS modules whose statically detected names differ  *)
+(* from the keys of module.exports when a namespace of them (or of an ES   *)
+(* module that re-exports them with export-star) is observed, CommonJS     *)
+(* exports changed after the snapshot.  Such runs end with excl # "" and   *)
+(* are not exported.  "export * from" a CommonJS or JSON module and        *)
+(* "export * as ns from" ARE generated (Node decides the names of a        *)
+(* CommonJS module with its lexer; the alphabet only has shapes the lexer  *)
+(* reads: exports.x = ..., module.exports = {x: ...}).                     *)
 (***************************************************************************)
 EXTENDS Integers, Sequences, FiniteSets, TLC, Json
 
